@@ -360,4 +360,56 @@ theorem live_step (F : FloatOps) : Live (step F) := by unfold step; live
 
 theorem live_handlePanic (m : String) : Live (handlePanic m) := by unfold handlePanic; live
 
+/-! ### the relation after `Clear`/`SetBytecode` and the requirements of the lifting -/
+
+/-- `t` is `s` with other dead frame data and another recorded trace -/
+def LiveS (s t : State) : Prop := ∃ fr tr, t = wf s fr tr ∧ FR s fr
+
+theorem LiveS.toLive {s t : State} (h : LiveS s t) : liveEq s t := by
+  obtain ⟨fr, tr, rfl, hfr⟩ := h
+  exact { heap := rfl, codes := rfl, consts := rfl, mainFn := rfl, numModules := rfl, globals := rfl, modules := rfl,
+          noPanic := rfl, err := rfl, abort := rfl, ip := rfl, sp := rfl, frameIndex := rfl, curFrame := rfl,
+          steps := rfl, traceOn := rfl, stackSize := rfl, framesSize := hfr.size.symm, stack := fun _ _ => rfl,
+          cur := hfr.cur, below := hfr.below, link := hfr.link }
+
+theorem LiveS.of_live {α} {m : M α} (hm : Live m) {s t : State} (h : LiveS s t) :
+    Both LiveS (exec m s) (exec m t) := by
+  obtain ⟨fr, tr, rfl, hfr⟩ := h
+  obtain ⟨fr', tr', e, h'⟩ := hm.elim s fr tr hfr
+  rw [e]
+  exact ⟨rfl, fr', tr', rfl, h'⟩
+
+theorem array_ext_get! (a b : Array V) (hs : a.size = b.size) (h : ∀ i : Nat, a[i]! = b[i]!) : a = b := by
+  apply Array.ext hs
+  intro i h1 h2
+  have := h i
+  simp only [getElem!_def, Array.getElem?_eq_getElem h1, Array.getElem?_eq_getElem h2] at this
+  exact this
+
+/-- what `prologue_live_core` establishes after `Clear`/`SetBytecode` is `LiveS` -/
+theorem liveS_of_liveEqW {s t : State} (h : liveEqW (fun _ => True) s t) : LiveS s t := by
+  obtain ⟨hl, hst, hsz, hcl⟩ := h
+  have hstack : s.stack = t.stack := array_ext_get! _ _ hl.stackSize (fun i => hst i trivial)
+  refine ⟨t.frames, t.trace, ?_, ⟨hl.framesSize.symm, by have := hl.cur; rw [← hl.curFrame] at this; exact this,
+    hl.below, hl.link, hsz, hcl⟩⟩
+  cases s; cases t
+  have h1 := hl.heap; have h2 := hl.codes; have h3 := hl.consts; have h4 := hl.mainFn; have h5 := hl.numModules
+  have h6 := hl.globals; have h7 := hl.modules; have h8 := hl.noPanic; have h9 := hl.err; have h10 := hl.abort
+  have h11 := hl.ip; have h12 := hl.sp; have h13 := hl.frameIndex; have h14 := hl.curFrame; have h15 := hl.steps
+  have h16 := hl.traceOn
+  simp only at h1 h2 h3 h4 h5 h6 h7 h8 h9 h10 h11 h12 h13 h14 h15 h16 hstack
+  subst h1 h2 h3 h4 h5 h6 h7 h8 h9 h10 h11 h12 h13 h14 h15 h16 hstack
+  rfl
+
+/-- **`LiveS` meets every requirement of the lifting** — `step_live` and `panic_live` are
+    theorems now -/
+theorem liveRel_LiveS (F : FloatOps) : LiveRel F LiveS :=
+  { toLive := fun h => h.toLive
+    step := fun _ _ h => LiveS.of_live (live_step F) h
+    panic := fun m _ _ h => LiveS.of_live (live_handlePanic m) h
+    abort := fun s t h => by
+      obtain ⟨fr, tr, rfl, hfr⟩ := h
+      exact ⟨fr, tr, rfl, ⟨hfr.size, hfr.cur, hfr.below, hfr.link, hfr.shape, hfr.curLt⟩⟩
+    ccf := fun s t h => (LiveS.of_live live_clearCurrentFrame h).2 }
+
 end UgoVerif.VM
